@@ -8,10 +8,22 @@ hooks = ["c743cec"]
 checks = []
 for pid, sp in sorted(PROPS.items()):
     thms = [t for ts in sp.get("theorems", {}).values() for t in ts]
+    if not thms:
+        # the theorems of the property's own Props modules (their `#print axioms` lines, which ./check audits)
+        import re
+        root = os.path.dirname(os.path.abspath(__file__))
+        for mod in sp.get("lean", []):
+            if not mod.startswith("Props."):
+                continue
+            path = os.path.join(root, "lean", mod.replace(".", "/") + ".lean")
+            if os.path.exists(path):
+                own = [m.group(1) for m in re.finditer(r"^#print axioms (\S+)", open(path, encoding="utf-8").read(), re.M)]
+                thms += [t for t in own if ".Example." not in t]
+    nthms = len(thms)
     text = sp.get("claim") or (
         "Lean 4 theorems about the executable model (%s), kernel-checked with audited axioms, tied to /repo on every run by regenerated tables "
         "and by a correspondence run of the real code against the model on generated inputs; the property's direct oracle on the real code supplies failing inputs."
-        % (", ".join(t.split(".")[-1] for t in thms[:6]) + (" …" if len(thms) > 6 else "") if thms else "no theorem yet for this property: correspondence + direct oracle only"))
+        % ("%d theorems in %s, e.g. %s" % (nthms, ", ".join("lean/" + m.replace(".", "/") + ".lean" for m in sp.get("lean", []) if m.startswith("Props.")), ", ".join(t.split(".")[-1] for t in thms[:8])) + (" …" if len(thms) > 8 else "") if thms else "no theorem yet for this property: correspondence + direct oracle only"))
     checks.append(dict(
         property_id=pid,
         quick_cmd="./check %s --tier quick" % pid,
@@ -19,7 +31,7 @@ for pid, sp in sorted(PROPS.items()):
         evidence_file="/verif/evidence/%s.json" % pid,
         replay_cmd_template="./check %s --replay {path}" % pid,
         engine="lean4-model+correspondence",
-        level_claimed=dict(category=sp["level"], text=text, design_ref=sp.get("design_ref", "DESIGN.md §6 " + pid)),
+        level_claimed=dict(category=sp["level"], text=text, design_ref=sp.get("design_ref", "DESIGN.md §0 (table), §5 (property notes), §8 (trusted base)")),
         level_note="; ".join(COMMON_TRUSTED[:3] + sp.get("trusted", [])) + ("; PARTIAL: " + sp["partial"] if sp.get("partial") else ""),
         technique=sp.get("technique", "machine-checked proof in Lean 4 over a model tied to the source by regeneration + differential correspondence"),
     ))
@@ -31,7 +43,7 @@ m = dict(
                source_commits=hooks, add_only=True),
     engines=[dict(name="lean4-model+correspondence", path="/verif/lean", serves_properties=sorted(PROPS), kind_free_text="Lean 4 model and theorems; Go translators (xlate) and harness; python orchestrator ./check")],
     checks=checks,
-    notes="See DESIGN.md. known_findings.jsonl lists the one recorded finding (C16) and the ten fix: commits.",
+    notes="See DESIGN.md. known_findings.jsonl lists the one recorded finding (C16, F11) and the fix: commits (F1-F10). seeded/ holds 169 confirmed breaking changes and seeded/RESULTS.md which check reports each.",
     not_applicable=[],
 )
 json.dump(m, open(os.path.join(os.path.dirname(os.path.abspath(__file__)), "MANIFEST.json"), "w"), indent=1)
